@@ -1,0 +1,79 @@
+//go:build verif
+
+// Contracts for update.go (properties C05 C16 C17 C18 C19). Attribute type
+// codes, flag bits and NOTIFICATION subcodes are written as the RFC numbers,
+// not as the package's constants, so that a changed constant is noticed.
+package corebgp
+
+//@ func PathAttrFlags.Optional returns (r)
+//@   ensures [bit7] r == bit(p, 128)
+//@ func PathAttrFlags.Transitive returns (r)
+//@   ensures [bit6] r == bit(p, 64)
+//@ func PathAttrFlags.Partial returns (r)
+//@   ensures [bit5] r == bit(p, 32)
+//@ func PathAttrFlags.ExtendedLen returns (r)
+//@   ensures [bit4] r == bit(p, 16)
+
+//@ func notifDataForAttrBasedErr returns (r)
+//@   ensures [tlv]   attrTLV(r, code, attrData)
+//@   ensures [fresh] fresh(r.arr)
+
+//@ func attrLenBadForCodeErr returns (n)
+//@   ensures [notif] n != nil && fresh(n) && n.Code == 3 && n.Subcode == 5 && attrTLV(n.Data, code, attrData)
+
+//@ func PathAttrFlags.Validate returns (err)
+//@   ensures [nil_iff]  (err == nil) == (bit(p, 128) == wantOptional && bit(p, 64) == wantTransitive)
+//@   ensures [class]    err != nil ==> isTAW(err, forCode, 3, 4)
+//@   ensures [data_tlv] err != nil ==> attrTLV(tawNotif(err).Data, forCode, attrData)
+
+//@ func OriginPathAttr.Decode returns (err)
+//@   ensures [accept_iff]  (err == nil) == (wellKnownFlags(flags) && len(b) == 1 && b[0] <= 2)
+//@   ensures [value_exact] err == nil ==> *o == b[0]
+//@   ensures [flags_class] !wellKnownFlags(flags) ==> isTAW(err, 1, 3, 4) && attrTLV(tawNotif(err).Data, 1, b)
+//@   ensures [len_class]   wellKnownFlags(flags) && len(b) != 1 ==> isTAW(err, 1, 3, 5) && attrTLV(tawNotif(err).Data, 1, b)
+//@   ensures [value_class] wellKnownFlags(flags) && len(b) == 1 && b[0] > 2 ==> isTAW(err, 1, 3, 6) && attrTLV(tawNotif(err).Data, 1, b)
+//@   ensures [unchanged_on_error] err != nil ==> *o == old(*o)
+//@   modifies *o
+
+//@ func NextHopPathAttr.Decode returns (err)
+//@   ensures [accept_iff]  (err == nil) == (wellKnownFlags(flags) && len(b) == 4)
+//@   ensures [value_exact] err == nil ==> *n == addr4(b[0], b[1], b[2], b[3])
+//@   ensures [flags_class] !wellKnownFlags(flags) ==> isTAW(err, 3, 3, 4) && attrTLV(tawNotif(err).Data, 3, b)
+//@   ensures [len_class]   wellKnownFlags(flags) && len(b) != 4 ==> isTAW(err, 3, 3, 5) && attrTLV(tawNotif(err).Data, 3, b)
+//@   modifies *n
+
+//@ func MEDPathAttr.Decode returns (err)
+//@   ensures [accept_iff]  (err == nil) == (optNonTransFlags(flags) && len(b) == 4)
+//@   ensures [value_exact] err == nil ==> *m == be32(b, 0)
+//@   ensures [flags_class] !optNonTransFlags(flags) ==> isTAW(err, 4, 3, 4) && attrTLV(tawNotif(err).Data, 4, b)
+//@   ensures [len_class]   optNonTransFlags(flags) && len(b) != 4 ==> isTAW(err, 4, 3, 5) && attrTLV(tawNotif(err).Data, 4, b)
+//@   modifies *m
+
+//@ func LocalPrefPathAttr.Decode returns (err)
+//@   ensures [accept_iff]  (err == nil) == (wellKnownFlags(flags) && len(b) == 4)
+//@   ensures [value_exact] err == nil ==> *l == be32(b, 0)
+//@   ensures [flags_class] !wellKnownFlags(flags) ==> isTAW(err, 5, 3, 4) && attrTLV(tawNotif(err).Data, 5, b)
+//@   ensures [len_class]   wellKnownFlags(flags) && len(b) != 4 ==> isTAW(err, 5, 3, 5) && attrTLV(tawNotif(err).Data, 5, b)
+//@   modifies *l
+
+// ATOMIC_AGGREGATE is well-known discretionary (RFC 4271 5.1.6): Optional = 0.
+//@ func AtomicAggregatePathAttr.Decode returns (err)
+//@   ensures [accept_iff]  (err == nil) == (wellKnownFlags(flags) && len(b) == 0)
+//@   ensures [value_exact] err == nil ==> *a == true
+//@   ensures [flags_class] !wellKnownFlags(flags) ==> isTAW(err, 6, 3, 4) && attrTLV(tawNotif(err).Data, 6, b)
+//@   ensures [len_class]   wellKnownFlags(flags) && len(b) != 0 ==> isAD(err, 6, 3, 5) && attrTLV(adNotif(err).Data, 6, b)
+//@   modifies *a
+
+//@ func AggregatorPathAttr.Decode returns (err)
+//@   ensures [accept_iff]  (err == nil) == (optTransFlags(flags) && len(b) == 8)
+//@   ensures [value_exact] err == nil ==> a.AS == be32(b, 0) && a.IP == addr4(b[4], b[5], b[6], b[7])
+//@   ensures [flags_class] !optTransFlags(flags) ==> isTAW(err, 7, 3, 4) && attrTLV(tawNotif(err).Data, 7, b)
+//@   ensures [len_class]   optTransFlags(flags) && len(b) != 8 ==> isAD(err, 7, 3, 5) && attrTLV(adNotif(err).Data, 7, b)
+//@   modifies *a
+
+//@ func OriginatorIDPathAttr.Decode returns (err)
+//@   ensures [accept_iff]  (err == nil) == (optNonTransFlags(flags) && len(b) == 4)
+//@   ensures [value_exact] err == nil ==> *o == addr4(b[0], b[1], b[2], b[3])
+//@   ensures [flags_class] !optNonTransFlags(flags) ==> isTAW(err, 9, 3, 4) && attrTLV(tawNotif(err).Data, 9, b)
+//@   ensures [len_class]   optNonTransFlags(flags) && len(b) != 4 ==> isTAW(err, 9, 3, 5) && attrTLV(tawNotif(err).Data, 9, b)
+//@   modifies *o
